@@ -10,3 +10,8 @@ Definition det_model (i : det_in) : N := 1%N.
 Definition det_ok (i : det_in) (o : N) : bool := N.eqb o 1.
 Definition det_known (i : det_in) : N := let '(_, k, _, _) := i in k.
 Definition det_judge := judge det_model N.eqb det_ok det_known.
+
+(* long-lived execute oracles over the real home-chain poller (part borrowed from C16): the distinct transmission
+   schedules the oracles attach to one outcome; the judge is C16's (exactly one answer, the model schedule) *)
+Require Verif.Check.C16_check.
+Definition rep_roles_judge := Verif.Check.C16_check.rep_judge.
